@@ -72,6 +72,9 @@ func OTwindows(p *load.Program, run *report.Run) {
 	run.Rule("stride-tail", "a loop over whole groups of K elements (i+K <= n; i += K) is followed by a tail for the last n mod K elements or guarded by n % K; with a built-in positive and negative example")
 	lints.StrideTail(p, run, []string{"ot", "gmw", "vole"})
 	run.Floor("stride-tail-examples", 2)
+	run.Rule("stride-equals-window", "a loop `for i < N; i += S` whose step handles count = min(N-i, C) elements (clamp written out, min(), or a module helper that is that clamp) has C = S as constants: every row of every block gets its check coefficient exactly once")
+	lints.StrideCoverage(p, run, []string{"ot", "gmw", "vole", "bmr"})
+	run.Floor("stride-clamps", 2)
 }
 
 // C10take: the take-the-remainder rule over the GMW triple pool.
@@ -180,4 +183,29 @@ func C13scan(p *load.Program, run *report.Run) {
 	run.Rule("write-window-equals-advance", "in circuit/ioarg.go, a SetBit(result, ofs+i, ...) in `for i := 0; i < B` (or a single SetBit at ofs) of a function returning `ofs + A` has B = A up to integer conversions")
 	lints.WriteWindow(p, run, []string{"circuit"}, map[string]bool{"circuit/ioarg.go": true})
 	run.Floor("packed-member-writes", 2)
+}
+
+// C14seen: the parsers reach the seen-wires table only through its checked methods.
+func C14seen(p *load.Program, run *report.Run) {
+	run.Rule("checked-table-access", "outside the methods of circuit.Seen (which return an error for an index past the end), a Seen table is indexed only by the variable of a loop bounded by len() of, or ranging over, that table; no slice expression is applied to it")
+	lints.CheckedTable(p, run, "circuit", "Seen")
+	run.Floor("checked-table-method-calls", 8)
+	run.Floor("checked-table-accesses", 2)
+}
+
+// C18widths: byte widths of curve elements in the sha2pc session and its OT helpers round up.
+func C18widths(p *load.Program, run *report.Run) {
+	run.Rule("rounding-discipline", "every division/shift of a count in sha2pc and in ot/co_helpers.go is a ceil idiom, a checked exact division, a quotient/remainder pair, or has its remainder handled: a byte width of floor(bits/8) is one byte short for P-521, where the session code uses (bits+7)/8")
+	lints.Rounding(p, run, []string{"sha2pc"}, nil, map[string]string{
+		"sha2pc.decodeLabels/len(data) / labelSize": "len(data) is compared with the constant garblerInputLabelBytes (a multiple of the label size) at the top of the function",
+	})
+	lints.Rounding(p, run, []string{"ot"}, map[string]bool{"ot/co_helpers.go": true, "ot/co.go": true}, map[string]string{})
+	run.Floor("division-sites", 3)
+}
+
+// LoopErrors: an error assigned in a loop body is tested in the same iteration.
+func LoopErrors(p *load.Program, run *report.Run) {
+	run.Rule("loop-error-checked-per-iteration", "in sha2pc, circuit, ot and p2p, an error variable declared outside a loop and assigned from a call in the loop body is mentioned by a condition, return or call later in the same body: no element's error is overwritten by the next element's; with built-in examples")
+	lints.LoopErrOverwrite(p, run, []string{"sha2pc", "circuit", "ot", "p2p", ""})
+	run.Floor("loop-error-examples", 2)
 }
